@@ -3,11 +3,15 @@ from vlib.runner import Obl
 
 PROPERTY = "C18"
 EXPLANATION = (
+    "E3: Duration.encode is translated from its AST (ints -> 64-bit vectors, int/int -> Float64 RNE division, %02d -> truncation) and "
+    "h*3600+m*60+s == |total seconds|, 0 <= m,s < 60, sign correct is decided per slice of 43 days by cvc5 (+z3), decomposed at the two integer %= cut points "
+    "(cut lemma over mathematical integers on both solvers); a pure-integer implementation is decided as one integer query. "
     "C18 (codecs): Boolean encode/decode (exact inverse, rejection of every other string), Duration.decode on the lexical forms odfdo and other "
     "producers write, DateTime.encode's +00:00 -> Z canonicalisation on an arbitrary isoformat() result, hexa_color's string dispatch. "
 )
-OUTSIDE = ("date/datetime.isoformat/fromisoformat and strftime (C routines); the 24-bit colour bijection through :02X / int(.,16) and the 147 CSS names (finite tables, C formatting); "
-           "Duration.encode (float kernel: E3 obligations pending); Duration.decode's leniency on strings outside xsd:duration; Unit")
+OUTSIDE = ("durations of 688 days or more in the quick tier / 10922 days (2**18 hours, 29.9 years) in the thorough tier; durations with microseconds (dropped by design); "
+           "date/datetime.isoformat/fromisoformat and strftime (C routines); the 24-bit colour bijection through :02X / int(.,16) and the 147 CSS names (finite tables, C formatting); "
+           "Duration.decode's leniency on strings outside xsd:duration; Unit")
 ASSUMPTIONS = ["string lengths and alphabets as stated per obligation"]
 TRUSTED = _T
 _ENC = ["src/odfdo/datatype.py:Boolean.encode,Boolean.decode,Duration.decode,DateTime.encode", "src/odfdo/utils/color.py:hexa_color"]
@@ -26,3 +30,27 @@ OBLIGATIONS = [
     _o("dur_reject_prefix", 5, "strings of <= 3 characters over {-,P,T,1,H,M,S,D,x}"),
     _o("datetime_z", 1, "any isoformat() result of <= 8 characters"), _o("hexa_color_str", 23, "strings of <= 3 characters over {space,#,0,a,F}"),
 ]
+
+
+_E3ENC = ["src/odfdo/datatype.py:Duration.encode (AST -> SMT-LIB, regenerated from the source on every run)"]
+_E3STUB = ["the isinstance(value, timedelta) guard is assumed true; timedelta normal form (0 <= seconds < 86400, microseconds == 0) is the input domain",
+           "C's %02d conversion of a float modelled as truncation toward zero; validated on 20 concrete vectors against the real function on every run"]
+
+
+def _slice(k, neg, cross, tier):
+    lo, hi = 43 * k, 43 * (k + 1)
+    return Obl(name=f"e3_encode_{'neg' if neg else 'pos'}_{lo}_{hi}", module="e3_duration", func="slice", engine="script",
+               script_args=[lo, hi, neg, cross, 300], timeout=400 if cross else 200, tier=tier, replay="r_e3:duration", twin=False,
+               weight=130 if cross else 45,
+               bounds=f"whole-second durations of {'negative' if neg else 'non-negative'} sign with {lo} <= |days| < {hi} (every hour/minute/second inside), decided by cvc5"
+                      + (" and z3" if cross else ""), encodes=_E3ENC, stubs=_E3STUB)
+
+
+for _k in range(16):
+    OBLIGATIONS.append(_slice(_k, 0, 1 if _k == 0 else 0, "quick"))
+for _k in range(4):
+    OBLIGATIONS.append(_slice(_k, 1, 0, "quick"))
+for _k in range(16, 254):
+    OBLIGATIONS.append(_slice(_k, 0, 1 if _k % 32 == 0 else 0, "thorough"))
+for _k in range(4, 64):
+    OBLIGATIONS.append(_slice(_k, 1, 1 if _k % 32 == 0 else 0, "thorough"))
